@@ -141,6 +141,25 @@ def partition_calls(f):
     return out
 
 
+RANGE_ARGS = {"lid_to_nid": ("n_nodes", "0", "global_config.lps"), "lid_to_rid": ("global_config.n_threads", "lid_node_first", "n_lps_node")}
+
+
+def _mcall_args(node):
+    txt = node.d.get("mcall") or ""
+    if "(" not in txt:
+        return None
+    inner = txt[txt.find("(") + 1: txt.rfind(")")]
+    args, depth, cur = [], 0, ""
+    for ch in inner:
+        if ch == "," and depth == 0:
+            args.append(cur.strip()); cur = ""
+        else:
+            depth += ch in "(["; depth -= ch in ")]"
+            cur += ch
+    args.append(cur.strip())
+    return args
+
+
 BOUNDS = {
     # variable: (function, routing macro, partition id, minus)
     "lid_node_first": ("lp_global_init", "lid_to_nid", "nid", None),
@@ -181,6 +200,12 @@ def check_bounds_from_routing(ck, P, rid):
                 problems.append("partition id is %s, expected %s" % (pc["id"], pid))
             if pc["down"] != ">=" or pc["up"] != "<":
                 problems.append("search thresholds are (down while %s, up while %s), expected (>=, <): the result is not the least index routed to the partition or later" % (pc["down"], pc["up"]))
+            args = _mcall_args(pc["node"])
+            want_args = RANGE_ARGS.get(macro)
+            if args is not None and want_args is not None and len(args) == 5:
+                got = (args[1].replace(" ", ""), args[3].replace(" ", ""), args[4].replace(" ", ""))
+                if got != tuple(w.replace(" ", "") for w in want_args):
+                    problems.append("searched over (parts=%s, start=%s, total=%s), but %s routes identifiers of (parts=%s, start=%s, total=%s): the two ends of a partition are computed over different ranges" % (args[1], args[3], args[4], macro, want_args[0], want_args[1], want_args[2]))
             if minus:
                 r = X.strip(rhs)
                 if not (r.k == "BinaryOperator" and r.op == "-" and X.show(r.children[1]) == minus):
@@ -283,6 +308,68 @@ def check_lp_loops(ck, P, rid):
             ck.holds(rid, inst, l.where, "for(%s = lid_thread_first; %s < lid_thread_end; ++%s) %s(&lps[%s]) once per iteration" % (iv[0].name, iv[0].name, iv[0].name, callee, iv[0].name), cfg)
 
 
+def _refute_routing(tops, parts, start, total, P=None):
+    """Evaluate a routing macro of unknown shape on small numbers.  Returns (expansion, x, value, parts, total, start, kind) for an
+    identifier of the range that is sent outside 0..parts-1 (kind 'range'), or for the first identifier past the range that is NOT
+    sent to partition >= parts (kind 'end': the search for the end of the last partition then runs past the range), or None."""
+    from . import ceval
+    from . import query as Q
+    for top in tops[:1]:
+        leaves = {}
+
+        def collect(x):
+            if x.k in ("DeclRefExpr", "MemberExpr"):
+                t = X.show(x)
+                if t not in (parts, start, total) and not (x.k == "DeclRefExpr" and x.d.get("dk") == "enum"):
+                    leaves[t] = x
+                return
+            for c in x.children:
+                collect(c)
+        collect(top)
+        derived = {}
+        argtxt = None
+        for t, x in leaves.items():
+            if x.k == "DeclRefExpr" and x.d.get("sc") not in ("local", "param") and P is not None:
+                ws = [(fn, node) for fn, node, kind in Q.global_accesses(P, x.name) if kind == "write"]
+                if len(ws) == 1:
+                    asg = ws[0][1].parent
+                    while asg is not None and not (asg.k == "BinaryOperator" and asg.op == "="):
+                        asg = asg.parent
+                    if asg is not None:
+                        derived[t] = asg.children[1]
+                        continue
+            if argtxt is not None:
+                argtxt = False
+            elif argtxt is None:
+                argtxt = t
+        if not argtxt:
+            continue
+        for np in range(1, 6):
+            for tot in range(np, 111):
+                for st in ((0, 7) if start != "0" else (0,)):
+                    env = {parts: np, total: tot}
+                    if start != "0":
+                        env[start] = st
+                    okd = True
+                    for t, rhs in derived.items():
+                        dv = ceval.ev(rhs, env)
+                        if dv is None:
+                            okd = False
+                        env[t] = dv
+                    if not okd:
+                        return None
+                    for xv in range(st, st + tot + 1):
+                        env[argtxt] = xv
+                        v = ceval.ev(top, env)
+                        if v is None:
+                            return None
+                        if xv < st + tot and not (0 <= v < np):
+                            return (top, xv, v, np, tot, st, "range")
+                        if xv == st + tot and v < np:
+                            return (top, xv, v, np, tot, st, "end")
+    return None
+
+
 def check_routing_range(ck, P, rid):
     """The routing macro used by a partition_start call maps [start, start + total) onto [0, parts): it has the form
     ((x - start) * parts / total) with the very (parts, start, total) that call passes (start 0 may be omitted)."""
@@ -326,10 +413,55 @@ def check_routing_range(ck, P, rid):
                     base = X.show(a.children[1])
                 shape = (X.show(b), base, X.show(den))
         if shape is None:
-            ck.inconclusive(rid, inst, tops[0].where, "routing macro is not of the form ((x - start) * parts / total): %s" % X.show(tops[0])[:80], cfg)
+            cex = _refute_routing(tops, parts, start, total, P)
+            if cex and cex[6] == "range":
+                ck.violated(rid, inst, cex[0].where, "%s(%d) = %d with %s = %d, %s = %d%s: identifier %d is routed to partition %d, but only 0..%d exist — it has no owner (expansion `%s`)"
+                            % (macro, cex[1], cex[2], parts, cex[3], total, cex[4], (", %s = %d" % (start, cex[5])) if start != "0" else "", cex[1], cex[2], cex[3] - 1, X.show(cex[0])[:60]), cfg)
+            elif cex:
+                ck.violated(rid, inst, cex[0].where, "%s(%d) = %d with %s = %d, %s = %d%s: the first identifier past the range is still routed to partition %d, so the search for the end of the last "
+                            "partition runs past the range — identifiers that do not exist are initialised and counted (expansion `%s`)"
+                            % (macro, cex[1], cex[2], parts, cex[3], total, cex[4], (", %s = %d" % (start, cex[5])) if start != "0" else "", cex[2], X.show(cex[0])[:60]), cfg)
+            else:
+                ck.inconclusive(rid, inst, tops[0].where, "routing macro is not of the form ((x - start) * parts / total): %s" % X.show(tops[0])[:80], cfg)
             continue
         if shape == (p_cnt, p_start, p_tot):
             ck.holds(rid, inst, tops[0].where, "%s(x) = (x - %s) * %s / %s with the (parts, start, total) of its partition_start call: values 0..parts-1 over the range" % (macro, shape[1], shape[0], shape[2]), cfg)
         else:
             ck.violated(rid, inst, tops[0].where, "%s computes (x - %s) * %s / %s but its ownership bounds are searched with parts=%s start=%s total=%s: some identifiers of the range are routed to a partition that does not exist (no owner) or two ranges overlap" % (
                 macro, shape[1], shape[0], shape[2], p_cnt, p_start, p_tot), cfg)
+
+
+def check_lp_table(ck, P, rid):
+    """The LP table is indexed with GLOBAL LP ids everywhere (lps[msg->dest], lps[i] for i in the ownership range).  A rank
+    allocates only its own n_lps_node entries, so the base pointer must be shifted down by the first hosted id after the
+    allocation, and shifted back before it is released."""
+    cfg = P.config
+    ini, fin = P.fn("lp_global_init"), P.fn("lp_global_fini")
+    inst = "lp-table@lp_global_init"
+    allocs = [a for a in ini.walk() if a.k == "BinaryOperator" and a.op == "=" and X.show(X.strip(a.children[0])) == "lps"]
+    shifts = [a for a in ini.walk() if a.k == "CompoundAssignOperator" and X.show(X.strip(a.children[0])) == "lps"]
+    if len(allocs) != 1:
+        ck.inconclusive(rid, inst, ini.where, "allocation of the LP table not recognised", cfg)
+    else:
+        call = X.strip(allocs[0].children[1])
+        size = X.strip(X.callee_args(call)[0], casts=True) if call.k == "CallExpr" and X.callee_args(call) else None
+        size_ok = size is not None and size.k == "BinaryOperator" and size.op == "*" and "n_lps_node" in X.show(size) and any(x.k == "UnaryExprOrTypeTraitExpr" for x in size.walk())
+        if not size_ok:
+            ck.violated(rid, inst + ":size", allocs[0].where, "the LP table is not allocated with n_lps_node entries: %s" % (X.show(size)[:60] if size is not None else "?"), cfg)
+        else:
+            ck.holds(rid, inst + ":size", allocs[0].where, "n_lps_node entries", cfg)
+        ok_shift = len(shifts) == 1 and shifts[0].op == "-=" and X.show(X.strip(shifts[0].children[1])) == "lid_node_first" and ini.cfg.dominates(allocs[0], shifts[0])
+        if ok_shift:
+            ck.holds(rid, inst + ":rebase", shifts[0].where, "lps -= lid_node_first after the allocation: lps[global id] addresses entry (id - first hosted id)", cfg)
+        else:
+            ck.violated(rid, inst + ":rebase", allocs[0].where, "the table holds only this rank's LPs but is indexed with global LP ids without being shifted by lid_node_first: on every rank but the first, "
+                        "lps[id] is outside the allocation", cfg)
+    inst = "lp-table@lp_global_fini"
+    back = [a for a in fin.walk() if a.k == "CompoundAssignOperator" and X.show(X.strip(a.children[0])) == "lps"]
+    frees = [c for c in fin.calls() if c.callee in ("mm_free", "free") and X.show(X.strip(X.callee_args(c)[0])) == "lps"]
+    if len(frees) != 1:
+        ck.inconclusive(rid, inst, fin.where, "release of the LP table not recognised", cfg)
+    elif len(back) == 1 and back[0].op == "+=" and X.show(X.strip(back[0].children[1])) == "lid_node_first" and fin.cfg.dominates(back[0], frees[0]):
+        ck.holds(rid, inst, frees[0].where, "shifted back by lid_node_first before it is released", cfg)
+    else:
+        ck.violated(rid, inst, frees[0].where, "the pointer released is not the one that was allocated (it is still shifted by lid_node_first)", cfg)
